@@ -161,6 +161,11 @@ func MakeContent(r *rand.Rand, o ContentOpts) Content {
 			}
 		case o.Boundaries && r.Intn(8) == 0:
 			tot := []int{127, 128, 16383, 16384, 129, 16385}[r.Intn(6)]
+			if r.Intn(2) == 0 {
+				// sizes around powers of two: where fixed-size scratch buffers end (cid+data, and cid+data+prefix)
+				k := []int{8, 9, 9, 10, 11, 12, 12, 13, 15, 16}[r.Intn(10)]
+				tot = 1<<k + []int{-3, -2, -1, 0, 1}[r.Intn(5)]
+			}
 			if o.BigBoundary && r.Intn(6) == 0 {
 				tot = []int{2097151, 2097152}[r.Intn(2)]
 			}
